@@ -234,6 +234,9 @@ def _gen_leaf(ctx: _Ctx, cls: type, tp, kafka_type: str):
     if kafka_type == "uuid":
         if rng.random() < ctx.shape["null_rate"]:
             return None
+        if rng.random() < 0.25:
+            # leading / trailing zero bytes, all ones: values a sloppy zero-check could mistake for null
+            return uuid.UUID(int=rng.choice((1, 255, 256, 2**64, 2**120, 2**127, 2**128 - 1, 2**64 - 1)))
         return uuid.UUID(int=rng.getrandbits(128) or 1)
     if kafka_type == "bool":
         return rng.random() < 0.5
